@@ -172,19 +172,8 @@ pub fn run_real(real_bin: &Path, fakegen: &Path, scenario: &Scenario, tag: &str,
             std::fs::remove_file(&target).map_err(|e| e.to_string())?;
             std::fs::hard_link(master_copy(fakegen)?, &target).map_err(|e| format!("link fakegen: {e}"))?;
         }
-        let mut cmd = Command::new(real_bin);
-        cmd.args(&scenario.argv).current_dir(&root).env_clear().stdin(Stdio::null()).stdout(Stdio::piped()).stderr(Stdio::piped());
-        unsafe {
-            cmd.pre_exec(move || {
-                let zero = libc::rlimit { rlim_cur: 0, rlim_max: 0 };
-                libc::setrlimit(libc::RLIMIT_CORE, &zero);
-                libc::alarm(30);
-                if privileged && (libc::setgroups(0, std::ptr::null()) != 0 || libc::setgid(UNPRIVILEGED) != 0 || libc::setuid(UNPRIVILEGED) != 0) {
-                    return Err(std::io::Error::last_os_error());
-                }
-                Ok(())
-            });
-        }
+        let mut cmd = launch(&launcher_path()?, real_bin, &scenario.argv, if privileged { Some(UNPRIVILEGED) } else { None }, 30, 0, false);
+        cmd.current_dir(&root).env_clear().stdin(Stdio::null()).stdout(Stdio::piped()).stderr(Stdio::piped());
         let out = cmd.output().map_err(|e| format!("cannot start {}: {e}", real_bin.display()))?;
         let exit = match out.status.code() {
             Some(c) => Exit::Code(c),
